@@ -98,6 +98,8 @@ impl FeoxStore {
             let new_value = crate::utils::json_patch::apply_json_patch(&current_value, patch)?;
             self.validate_key_value(key, &new_value)?;
             crate::test_hooks::pause_at(crate::test_hooks::AFTER_JSON_PATCH_READ);
+            #[cfg(feature = "verif")]
+            crate::verif::sched("patch.before_swap", 0, 0);
 
             if self.replace_record_if_current(key, &source, &new_value, timestamp, 0, start)? {
                 return Ok(());
